@@ -19,7 +19,7 @@ func runC07(r *rt.Run) {
 	k := 1
 	r.Bounds["seeds"] = len(seeds)
 	r.Bounds["token_alphabet"] = len(docgen.Alphabet)
-	r.Rule = "grammar seeds (9 types x list lengths x dimensionalities x member sets, nested collections) and every document within k token deviations (delete / insert / substitute over a 24-token alphabet, truncate, swap members, duplicate member); all token strings up to a length over a 14-token alphabet; all byte strings of length <= 2 after '{'; each under 2 option sets; non-trivial = reference verdict is must-accept or must-reject for a structural (not JSON-syntax) reason"
+	r.Rule = "grammar seeds (9 types x list lengths x dimensionalities x member sets, nested collections) and every document within k token deviations (delete / insert / substitute over a 24-token alphabet, truncate, swap members, duplicate member); every seed with each node of its JSON tree replaced by null / true / 0 / a string / [] / {} / itself in an array / (array) an object with the same values / (object) the array of its values; all token strings up to a length over a 14-token alphabet; all byte strings of length <= 2 after '{'; each under 2 option sets; non-trivial = reference verdict is must-accept or must-reject for a structural (not JSON-syntax) reason"
 	r.Assume = []string{"reference reader on encoding/json (verif/mc/refdoc) written from the statement; documents the statement does not describe (5+ ordinates, null geometry, null ordinates, overflowing numbers) are not judged"}
 	type job struct {
 		seed string
@@ -55,6 +55,17 @@ func runC07(r *rt.Run) {
 			check(text, w)
 		})
 		w.States += n
+	})
+	// wrong JSON kind at every node of every seed
+	r.ParFor(len(seeds), func(i int, w *rt.Worker) {
+		for _, text := range kindSwaps(seeds[i]) {
+			w.States++
+			w.Trans++
+			if v, _, why := refdoc.Classify(text); v == refdoc.MustAccept || (v == refdoc.MustReject && why != "not valid JSON") {
+				w.Nontriv++
+			}
+			check(text, w)
+		}
 	})
 	// large documents, as they are, and with their last byte removed / one byte appended
 	large := docgen.LargeDocs()
